@@ -9,13 +9,19 @@ from enum_cf import Enumerator, encode_body, sigma_full, sigma_ctl, sigma_typed
 BATCH = 2000
 
 
-def batches_of(label, symbols, params, locals_groups, result, n, inputs, imports, exact=False):
-    """generator of Batches covering every valid body with <= n symbols (exact: only those with exactly n)"""
+def batches_of(label, symbols, params, locals_groups, result, n, inputs, imports, exact=False, context=None):
+    """generator of Batches covering every valid body with <= n symbols (exact: only those with exactly n);
+    context = (prefix, suffix): the n symbols are enumerated inside that fixed context"""
     locs = ''.join(t * c for c, t in locals_groups)
     E = Enumerator(symbols, params, locs, result)
-    it = E.enumerate(n)
-    if exact:
-        it = (seq for seq in it if len(seq) == n)
+    if context:
+        it = E.enumerate(n, prefix=context[0], suffix=context[1])
+        if exact:
+            it = (seq for seq in it if len(seq) == n + len(context[0]) + len(context[1]))
+    else:
+        it = E.enumerate(n)
+        if exact:
+            it = (seq for seq in it if len(seq) == n)
     while True:
         part = list(itertools.islice(it, BATCH))
         if not part:
@@ -55,6 +61,13 @@ def main(tier):
         for gi, g in enumerate(groupings if tier == 'thorough' else groupings[:2]):
             S3, p3, l3, r3, g3 = sigma_typed(T, 'iI', g)
             plans.append(('typed-%s-g%d' % (T, gi), S3, p3, list(g3), r3, ntyp, in_iI, [], False))
+    # contexts: all valid fillings of <= N instructions (21-symbol alphabet) of fixed contexts that need more instructions than the
+    # plain enumerations reach: dead code inside a block that is followed by live code, dead code in either arm of a live if,
+    # branches above extra operands inside / below a value-carrying block, bodies of a loop nested in a block
+    Sm, pm, lm, rm = enum_cf.sigma_mid()
+    nctx = 4 if tier == 'quick' else 5
+    for cname, pre, suf in enum_cf.contexts():
+        plans.append(('ctx:' + cname, Sm, pm, [], rm, nctx, in_ii, mark, False, (pre, suf)))
     if tier == 'thorough':
         # extension passes, cheapest first: only bodies with exactly N+1 instructions; the deadline may cut them short (reported per alphabet)
         for T in 'IfF':
@@ -79,14 +92,17 @@ def main(tier):
                     d['bodies'] += res['funcs']; d['evaluations'] += res['evals']; d['nontrivial'] += res['nontrivial']
                 else:
                     chk.cov['exhaustive'] = False
-        for (label, S_, p_, g_, r_, n_, inp, imps, exact_) in plans:
+        for plan in plans:
+            (label, S_, p_, g_, r_, n_, inp, imps, exact_), ctx_ = plan[:9], (plan[9] if len(plan) > 9 else None)
             per.setdefault(label, {'bodies': 0, 'evaluations': 0, 'nontrivial': 0})['max_instructions'] = n_
             per[label]['exactly_n_only'] = exact_
             first = True
             if time.time() > deadline:
                 capped = True; per[label]['capped'] = True
                 continue
-            for b in batches_of(label, S_, p_, g_, r_, n_, inp, imps, exact_):
+            if ctx_:
+                per[label]['context'] = '%s [ <= %d instructions ] %s' % (' '.join(x.name for x in ctx_[0]), n_, ' '.join(x.name for x in ctx_[1]))
+            for b in batches_of(label, S_, p_, g_, r_, n_, inp, imps, exact_, ctx_):
                 if time.time() > deadline:
                     capped = True
                     per[label]['capped'] = True
@@ -104,7 +120,8 @@ def main(tier):
     chk.cov['alphabets'] = per
     chk.cov['rule'] = ('validator-driven DFS enumerates every valid function body with <= N instructions over each alphabet (full: 33 symbols, '
                        'ctl: 13 symbols, typed-*: carried value of type i64/f32/f64 with mixed-type params and locals in several declaration '
-                       'groupings); each body runs on every input vector; return value, trap and ordered host-call trace are compared with the '
+                       'groupings; ctx:*: every valid filling of <= N instructions over a 21-symbol alphabet of six fixed contexts - dead code inside a block followed by live code, dead code in '
+                       'either arm of a live if, above extra operands inside/below a value-carrying block, inside a loop nested in a block); each body runs on every input vector; return value, trap and ordered host-call trace are compared with the '
                        'reference; a body is non-trivial iff its reference outcome is not constant over the inputs')
     chk.assumptions += ['bodies longer than the completed N are not covered', 'reference = own interpreter validated against the spec test-suite']
     return chk.finish()
